@@ -212,6 +212,21 @@ func (e *Env) ident(name string) *Value {
 			return v
 		}
 	}
+	if gv, ok := x.eng.cs.Ghosts[name]; ok && e.view().specHeap != nil {
+		// inside a spec function body: ghost variables are formal parameters, like heap arrays
+		si := e.view().specHeap
+		key := "G|" + name
+		pfx := si.prefix
+		if pfx == "" {
+			pfx = "hp_"
+		}
+		nm := "|" + pfx + smtName(key) + "|"
+		if _, seen := si.heapSort[key]; !seen {
+			si.heapKeys = append(si.heapKeys, key)
+			si.heapSort[key] = sortOf(x.eng.ghostType(gv))
+		}
+		return leaf(x.eng.ghostType(gv), nm)
+	}
 	if g, ok := e.view().ghost[name]; ok {
 		return g
 	}
@@ -844,6 +859,14 @@ func (e *Env) call(n *ast.CallExpr) *Value {
 			}
 			return intLeaf(fmt.Sprintf("(select (select %s %s) %s)", x.heapArr(v, "MV|sync.Map|$val", "Int"), mref, kt))
 		})
+	case "dbbatchop":
+		// dbbatchop(batch, key): 0 untouched, 1 set, 2 delete — the pending operation of a batch on key
+		bv := e.eval(n.Args[0])
+		kt := e.eval(n.Args[1]).Term
+		b := x.dbRef(bv)
+		return e.withView(func(v *State) *Value {
+			return intLeaf(fmt.Sprintf("(select (select %s %s) %s)", x.heapArr(v, "MV|dbmbatch|op", "Int"), b, kt))
+		})
 	case "dbhas", "dbget", "dbcount", "dbwrites":
 		// key-value store model: dbhas(db,key), dbget(db,key), dbcount(db, firstByte), dbwrites(db)
 		dbv := e.eval(n.Args[0])
@@ -1086,7 +1109,9 @@ func (x *Exec) specInstance(sf *SpecFunc) *specInst {
 		nm := "|hp_" + smtName(k) + "|"
 		srt := si.heapSort[k]
 		elem := strings.HasPrefix(k, "E|") || strings.HasPrefix(k, "MD|") || strings.HasPrefix(k, "MV|")
-		if elem {
+		if strings.HasPrefix(k, "G|") {
+			hp = append(hp, fmt.Sprintf("(%s %s)", nm, srt))
+		} else if elem {
 			hp = append(hp, fmt.Sprintf("(%s (Array Int (Array Int %s)))", nm, srt))
 		} else {
 			hp = append(hp, fmt.Sprintf("(%s (Array Int %s))", nm, srt))
@@ -1108,7 +1133,9 @@ func (x *Exec) specInstance(sf *SpecFunc) *specInst {
 		}
 		for _, k := range si.heapKeys {
 			srt := si.heapSort[k]
-			if strings.HasPrefix(k, "E|") || strings.HasPrefix(k, "MD|") || strings.HasPrefix(k, "MV|") {
+			if strings.HasPrefix(k, "G|") {
+				sorts = append(sorts, srt)
+			} else if strings.HasPrefix(k, "E|") || strings.HasPrefix(k, "MD|") || strings.HasPrefix(k, "MV|") {
 				sorts = append(sorts, fmt.Sprintf("(Array Int (Array Int %s))", srt))
 			} else {
 				sorts = append(sorts, fmt.Sprintf("(Array Int %s)", srt))
@@ -1133,7 +1160,9 @@ func (x *Exec) specInstance(sf *SpecFunc) *specInst {
 		}
 		for _, k := range si.heapKeys {
 			srt := si.heapSort[k]
-			if strings.HasPrefix(k, "E|") || strings.HasPrefix(k, "MD|") || strings.HasPrefix(k, "MV|") {
+			if strings.HasPrefix(k, "G|") {
+				sorts = append(sorts, srt)
+			} else if strings.HasPrefix(k, "E|") || strings.HasPrefix(k, "MD|") || strings.HasPrefix(k, "MV|") {
 				sorts = append(sorts, fmt.Sprintf("(Array Int (Array Int %s))", srt))
 			} else {
 				sorts = append(sorts, fmt.Sprintf("(Array Int %s)", srt))
@@ -1182,6 +1211,10 @@ func (e *Env) applySpec(sf *SpecFunc, args []ast.Expr) *Value {
 	}
 	v := e.view()
 	for _, k := range si.heapKeys {
+		if strings.HasPrefix(k, "G|") {
+			terms = append(terms, e.ident(k[2:]).Term)
+			continue
+		}
 		terms = append(terms, x.heapArr(v, k, si.heapSort[k]))
 	}
 	if len(terms) == 0 {
@@ -1222,6 +1255,13 @@ func (x *Exec) havocLocation(env *Env, c *Clause) {
 		}
 		if id.Name == "heap" {
 			x.havocAllHeap(st)
+			return
+		}
+		if id.Name == "dbstate" {
+			for k, srt := range dbStateKeys {
+				x.arrSort[k] = srt
+				x.havocHeapArr(st, k)
+			}
 			return
 		}
 		if id.Name == "syncmaps" {
